@@ -293,3 +293,46 @@ func matchN(g *Graph, a Atom, e ast.Expr) (bool, bool) {
 	}
 	return ok, s
 }
+
+// EdgesRefutingAll returns the edges on which the conjunction of the atoms is refuted:
+// some atom is false, or the edge is the false edge of a conjunction all of whose leaves are among the atoms.
+func (g *Graph) EdgesRefutingAll(atoms ...Atom) []Edge {
+	set := map[Edge]bool{}
+	for _, a := range atoms {
+		for _, e := range g.AtomEdges(a, false) {
+			set[e] = true
+		}
+	}
+	var leavesAll func(e ast.Expr) bool
+	leavesAll = func(e ast.Expr) bool {
+		e = unparen(e)
+		if be, ok := e.(*ast.BinaryExpr); ok && be.Op == token.LAND {
+			return leavesAll(be.X) && leavesAll(be.Y)
+		}
+		for _, a := range atoms {
+			if ok, s := matchN(g, a, e); ok && s {
+				return true
+			}
+		}
+		return false
+	}
+	for _, blk := range g.C.Blocks {
+		if !blk.Live || g.condOf[blk] == nil {
+			continue
+		}
+		for s := 0; s < 2; s++ {
+			e := Edge{blk, s}
+			for _, f := range g.EdgeFacts(e) {
+				be, ok := unparen(f.E).(*ast.BinaryExpr)
+				if ok && be.Op == token.LAND && !f.Truth && leavesAll(be) {
+					set[e] = true
+				}
+			}
+		}
+	}
+	var out []Edge
+	for e := range set {
+		out = append(out, e)
+	}
+	return out
+}
